@@ -2,6 +2,7 @@ package rules
 
 import (
 	"fmt"
+	"go/constant"
 	"go/token"
 	"go/types"
 	"strings"
@@ -192,12 +193,26 @@ func checkC01(c *Ctx) {
 		dh := c.deepViewOf(h, 2)
 		var bad []string
 		n := 0
-		for _, r := range ir.Returns(h) {
-			if ir.IsNilConst(r.Results[0]) {
-				continue
+		// the values a return may carry (named results and conditional assignment make it a phi)
+		var results []ssa.Value
+		var expand func(v ssa.Value, depth int)
+		expand = func(v ssa.Value, depth int) {
+			if ph, isPhi := v.(*ssa.Phi); isPhi && depth < 4 {
+				for _, e := range ph.Edges {
+					expand(e, depth+1)
+				}
+				return
 			}
+			if !ir.IsNilConst(v) {
+				results = append(results, v)
+			}
+		}
+		for _, r := range ir.Returns(h) {
+			expand(effectiveResult(h, r, 0), 0)
+		}
+		for _, rv := range results {
 			n++
-			dg := dh.digestOf(r.Results[0], dh.root)
+			dg := dh.digestOf(rv, dh.root)
 			switch {
 			case !dg.ok:
 				bad = append(bad, "the result is not the Sum(nil) of a hash: "+dg.why)
@@ -505,7 +520,11 @@ func (c *Ctx) sectionOrder(dv *deepView, fn *ssa.Function, parts []listItem) {
 	c.R.Check(ok, "J2.order", fname, "sorted-slice-is-hashed", c.Pos(fn.Pos()), "the section table that is hashed is the one sorted before the loop", det)
 	if sortCall != nil {
 		okC, detC := c.ascendingByOffset(sortCall)
-		c.R.Check(okC, "J2.order", fname, "comparator", c.IPos(sortCall), "sections are ordered ascending by their file offset (PointerToRawData)", detC)
+		if !okC && strings.HasPrefix(detC, "not decided") {
+			c.R.Infof("J2.order", fname, "comparator", c.IPos(sortCall), detC)
+		} else {
+			c.R.Check(okC, "J2.order", fname, "comparator", c.IPos(sortCall), "sections are ordered ascending by their file offset (PointerToRawData)", detC)
+		}
 	}
 	// zero-size sections contribute nothing
 	okZ, detZ := false, "the append of the section part is not guarded by SizeOfRawData != 0"
@@ -610,7 +629,7 @@ func (c *Ctx) ascendingByOffset(sortCall *ssa.Call) (bool, string) {
 	}
 	rets := ir.Returns(cmpFn)
 	if len(rets) != 1 {
-		return false, "comparator has several returns (only cmp.Compare / a<b forms are evaluated)"
+		return c.comparatorByCases(cmpFn)
 	}
 	offsetOf := func(v ssa.Value) int {
 		v = ir.StripConv(v)
@@ -1168,4 +1187,154 @@ func (c *Ctx) rulePartOffset(rule string) {
 	}
 	c.R.Check(bad == "", rule, name(fn), "part-relative", c.Pos(fn.Pos()), "parts are read at offsets relative to the part",
 		"the part read at "+bad+" is given the offset of the whole stream unchanged: for every part but the first this addresses other bytes of the part (or none)")
+}
+
+// comparatorByCases runs a branching comparator over the three orderings of
+// (a.Offset, b.Offset): every condition on the way must be a comparison of
+// those two fields, every result a constant, cmp.Compare of them, or a<b.
+func (c *Ctx) comparatorByCases(cmpFn *ssa.Function) (bool, string) {
+	side := func(v ssa.Value) int {
+		v = ir.StripConv(v)
+		id := ir.FieldID(v)
+		if ld, ok := v.(*ssa.UnOp); ok && ld.Op == token.MUL {
+			id = ir.FieldID(ld.X)
+		}
+		if id != "debug/pe.SectionHeader.Offset" {
+			return -1
+		}
+		for k, p := range cmpFn.Params {
+			if ir.RootOf(v) == ssa.Value(p) {
+				return k
+			}
+			if ld, ok := v.(*ssa.UnOp); ok && ir.RootOf(ld.X) == ssa.Value(p) {
+				return k
+			}
+		}
+		return -1
+	}
+	rel := func(op token.Token, ord int) (bool, bool) { // ord = sign(x - y)
+		switch op {
+		case token.LSS:
+			return ord < 0, true
+		case token.LEQ:
+			return ord <= 0, true
+		case token.GTR:
+			return ord > 0, true
+		case token.GEQ:
+			return ord >= 0, true
+		case token.EQL:
+			return ord == 0, true
+		case token.NEQ:
+			return ord != 0, true
+		}
+		return false, false
+	}
+	evalBool := func(v ssa.Value, ord int) (bool, bool) {
+		bo, ok := v.(*ssa.BinOp)
+		if !ok {
+			return false, false
+		}
+		x, y := side(bo.X), side(bo.Y)
+		switch {
+		case x == 0 && y == 1:
+			return rel(bo.Op, ord)
+		case x == 1 && y == 0:
+			return rel(bo.Op, -ord)
+		}
+		return false, false
+	}
+	isBool := isBoolType(cmpFn.Signature.Results().At(0).Type())
+	for _, ord := range []int{-1, 0, 1} {
+		b, pred := cmpFn.Blocks[0], (*ssa.BasicBlock)(nil)
+		var got int
+		decided := false
+		for steps := 0; steps < 40 && !decided; steps++ {
+			switch last := b.Instrs[len(b.Instrs)-1].(type) {
+			case *ssa.If:
+				t, ok := evalBool(last.Cond, ord)
+				if !ok {
+					return false, "not decided for this shape: the comparator branches on something other than the two file offsets"
+				}
+				pred = b
+				if t {
+					b = b.Succs[0]
+				} else {
+					b = b.Succs[1]
+				}
+			case *ssa.Jump:
+				pred, b = b, b.Succs[0]
+			case *ssa.Return:
+				res := last.Results[0]
+				if ph, isPhi := res.(*ssa.Phi); isPhi && ph.Block() == b && pred != nil {
+					for k, p := range b.Preds {
+						if p == pred {
+							res = ph.Edges[k]
+						}
+					}
+				}
+				switch x := res.(type) {
+				case *ssa.Const:
+					if isBool {
+						if constant.BoolVal(x.Value) {
+							got = -1
+						} else {
+							got = 1
+						}
+					} else if k, ok := ir.ConstInt(x); ok {
+						got = int(k)
+					}
+					decided = true
+				case *ssa.BinOp:
+					t, ok := evalBool(x, ord)
+					if !ok {
+						return false, "not decided for this shape: the comparator's result is not a comparison of the two file offsets"
+					}
+					if t {
+						got = -1
+					} else {
+						got = 1
+					}
+					decided = true
+				case *ssa.Call:
+					if strings.HasPrefix(ir.CallID(x), "cmp.Compare") {
+						a0, a1 := side(x.Call.Args[0]), side(x.Call.Args[1])
+						switch {
+						case a0 == 0 && a1 == 1:
+							got = ord
+						case a0 == 1 && a1 == 0:
+							got = -ord
+						default:
+							return false, "not decided for this shape: cmp.Compare of other values than the two file offsets"
+						}
+						decided = true
+					}
+				}
+				if !decided {
+					return false, "not decided for this shape: the comparator's result is not evaluated"
+				}
+			default:
+				return false, "not decided for this shape: the comparator's control flow is not evaluated"
+			}
+		}
+		if !decided {
+			return false, "not decided for this shape: the comparator's control flow is not evaluated"
+		}
+		sign := 0
+		if got < 0 {
+			sign = -1
+		} else if got > 0 {
+			sign = 1
+		}
+		if isBool {
+			// less(a, b) must be true exactly for a < b
+			if (sign < 0) != (ord < 0) {
+				return false, fmt.Sprintf("the comparator reports a<b = %v when the offsets compare %d", sign < 0, ord)
+			}
+			continue
+		}
+		if sign != ord {
+			return false, fmt.Sprintf("the comparator returns %d when a.Offset compares %d to b.Offset: the order is not ascending by file offset", got, ord)
+		}
+	}
+	return true, ""
 }
